@@ -156,6 +156,159 @@ class InDiskKill:
             drop(a)
 
 
+KEY_SECOND = 'F-C07-second-interrupted-sync-clears-empty-marker'
+
+
+class TwoKills:
+    """additions only, TWO successive interrupted syncs: d1/a synced; d2/b added, sync killed (k1); d3/c added, sync killed again (k2).
+    The second sync LOADS the content the first one saved before its loop: state_read with clear_past_hash turns the 'this position
+    held nothing' marker (CHG, past hash ZERO) of b's blocks into INVALID, and the second run's own save before the loop writes that.
+    Every file synced before (d1/a) has to stay recoverable from any single lost device."""
+
+    def __init__(self, chk, binary, shim, np_, cache, nblk=4):
+        self.chk, self.binary, self.shim, self.np, self.cache, self.nblk = chk, binary, shim, np_, cache, nblk
+        self.stats = {'histories': 0, 'recoveries': 0, 'passed': 0, 'marker_cleared': 0}
+        self.desc = {'family': 'two successive interrupted syncs, additions only', 'nd': 3, 'np': np_, 'io_cache': cache, 'nblk': nblk}
+        self.opts = ['--test-io-cache', str(cache)]
+        a = self.build()
+        self.n1 = self.count(a)          # calls of the first sync (d2/b added)
+        self.add_c(a)
+        self.n2 = self.count(a)          # calls of the second one (d3/c added), after a COMPLETE first one: an upper bound
+        drop(a)
+
+    def build(self):
+        a = Array(self.binary, nd=3, np_=self.np, ncontent=1, shim=self.shim)
+        a.write('d1', 'a', det_bytes('tk/a', self.nblk * BS - 7), mtime_ns=T0 + 123456789)
+        r = a.run('sync')
+        if r.rc != 0:
+            raise RuntimeError('two-kills: clean sync failed: %r' % r)
+        a.write('d2', 'b', det_bytes('tk/b', (self.nblk - 1) * BS + 5), mtime_ns=T0 + 50 * 10**9 + 123456789)
+        return a
+
+    def add_c(self, a):
+        a.write('d3', 'c', det_bytes('tk/c', self.nblk * BS), mtime_ns=T0 + 90 * 10**9 + 123456789)
+
+    def count(self, a):
+        log = os.path.join(a.root, 'cnt.log')
+        if os.path.exists(log):
+            os.unlink(log)
+        r = a.run('sync', *self.opts, shim_env={'VSHIM_LOG': log})
+        if r.rc != 0:
+            raise RuntimeError('two-kills: reference sync failed: %r' % r)
+        return len(shim_log(log))
+
+    def points(self, quick):
+        """(k1, k2): k = ('pw', j) just before the j-th parity pwrite | ('n', call number, mode)"""
+        pw = [('pw', j) for j in range(1, self.nblk * self.np + 1)]
+        num1 = [('n', k, 'before') for k in range(1, self.n1 + 1)]
+        num2 = [('n', k, 'before') for k in range(1, self.n2 + 1)]
+        if quick:
+            k1s = pw[:3] + pw[-1:] + num1[::3]
+            k2s = pw[:2] + pw[-1:] + num2[::5] + [('n', self.n2, 'after')]
+        else:
+            k1s = pw + num1 + [('n', k, 'short') for k in range(1, self.n1 + 1, 2)]
+            k2s = pw + num2[::2] + [('n', self.n2, 'after')]
+        return [(k1, k2) for k1 in k1s for k2 in k2s]
+
+    @staticmethod
+    def kill_env(k):
+        if k[0] == 'pw':
+            return {'VSHIM_KILL_ON': 'pwrite:.parity:%d:before' % k[1]}
+        return {'VSHIM_KILL': '%d:%s' % (k[1], k[2]) if k[2] != 'before' else str(k[1])}
+
+    @staticmethod
+    def markers(a, st, disk, sub):
+        """pos -> 'ZERO' | 'INVALID' | 'other' for the CHG blocks of a file"""
+        out = {}
+        for f in st['disks'].get(disk, {'files': []})['files']:
+            if f['sub'].decode('latin1') == sub:
+                for (s_, pos, h) in f['blocks']:
+                    if s_ == 'CHG':
+                        out[pos] = 'INVALID' if h == bytes(len(h)) else ('ZERO' if h == b'\xff' * len(h) else 'other')     # elem.h: invalid = 00.., zero = ff..
+        return out
+
+    def case(self, pt):
+        k1, k2 = pt
+        chk = self.chk
+        if len(chk.violations) > 8:
+            return
+        a = self.build()
+        rep = dict(self.desc, kill1=list(map(str, k1)), kill2=list(map(str, k2)))
+        try:
+            r1 = a.run('sync', *self.opts, shim_env=self.kill_env(k1))
+            if r1.rc not in (-9, 137):
+                return                                   # not killed: a single interrupted sync is the SyncKill family
+            try:
+                m1 = self.markers(a, a.content(), 'd2', 'b')
+            except Exception:
+                m1 = {}
+            self.add_c(a)
+            r2 = a.run('sync', *self.opts, shim_env=self.kill_env(k2))
+            killed2 = r2.rc in (-9, 137)
+            if not killed2 and r2.rc != 0:
+                chk.violation('twokills_resume', 'additions only: the sync after a sync killed at %s fails (rc %d): %s' % (k1, r2.rc, r2.err[-300:]), rep)
+                return
+            self.stats['histories'] += 1
+            try:
+                st2 = a.content()
+            except Exception as e:
+                chk.violation('no_content', 'two successive killed syncs (%s, %s): the content does not decode: %s' % (k1, k2, e), rep)
+                return
+            m2 = self.markers(a, st2, 'd2', 'b')
+            cleared = sorted(p for p in m1 if m1[p] == 'ZERO' and m2.get(p) == 'INVALID')
+            if cleared:
+                self.stats['marker_cleared'] += 1
+            # independent diagnosis of the stripes of d1/a: which parity levels still hold the parity of the OLD data (d1/a alone)
+            apos = file_stripes(a, st2, 'd1', 'a')
+            adata = a.store[('d1', 'a')][0][0]
+            old_levels = {}
+            for pos in apos:
+                i = apos.index(pos)
+                blk = adata[i * a.bs:(i + 1) * a.bs]
+                data = [blk + bytes(a.bs - len(blk))] + [bytes(a.bs)] * 2
+                exp = gfref.gen('c', a.np, data)
+                old_levels[pos] = [l for l in range(a.np) if a.parity_bytes(l)[pos * a.bs:(pos + 1) * a.bs] == exp[l]]
+            rep.update({'markers_after_kill1': {str(k): v for k, v in m1.items()}, 'markers_after_kill2': {str(k): v for k, v in m2.items()}, 'cleared': cleared,
+                        'levels_still_old': {str(k): v for k, v in old_levels.items()}})
+            # kill_inv on the way
+            perr, _ = a.check_parity(st2)
+            for e in perr[:1]:
+                chk.violation('kill_inv', 'two successive killed syncs (%s, %s): a stripe is recorded synced whose parity is not valid: %s' % (k1, k2, e), rep)
+            devs = [('d', 'd1'), ('d', 'd2'), ('d', 'd3')] + [('p', l) for l in range(a.np)]
+            for dev in devs:
+                b = clone(a)
+                try:
+                    lose(b, dev)
+                    rf = b.run('fix', '-d', dev[1]) if dev[0] == 'd' else b.run('fix')
+                    self.stats['recoveries'] += 1
+                    p = b.path('d1', 'a')
+                    if os.path.isfile(p) and open(p, 'rb').read() == adata:
+                        self.stats['passed'] += 1
+                        continue
+                    # the exact shape of the open finding: the data disk of the old file lost (one device, never more than the parity levels), no
+                    # torn write, and in a stripe of d1/a a block of d2/b whose empty marker was ZERO after the first kill and is INVALID after
+                    # the second, with a parity level of that stripe still holding the OLD parity (with the marker, zeros + that level rebuild a)
+                    torn = any(k[0] == 'n' and k[2] == 'short' for k in (k1, k2))
+                    hitpos = [p_ for p_ in cleared if p_ in apos]
+                    if torn and a.np == 1 and dev == ('d', 'd1'):
+                        self.stats['torn_np1_unrecoverable'] = self.stats.get('torn_np1_unrecoverable', 0) + 1      # Q-C07: measured, not judged
+                        continue
+                    # (a kill inside a write with two parity levels: the torn block costs one level, the other is in the situation of np = 1)
+                    shape = dev == ('d', 'd1') and bool(hitpos) and (os.path.exists(p + '.unrecoverable') or not os.path.isfile(p))
+                    # variant 'old': a level of such a stripe still holds the OLD parity (keeping ZERO would have rebuilt a);
+                    # variant 'mixed': every level already holds a+b (first kill after the parity writes, before the final save) but not c:
+                    # fix tries 'all new' and 'all old' only, never 'b new, c empty'
+                    rep['variant'] = 'old' if any(old_levels.get(p_) for p_ in hitpos) else 'mixed'
+                    if shape:
+                        self.stats['finding_' + rep['variant']] = self.stats.get('finding_' + rep['variant'], 0) + 1
+                    chk.violation('twokills_adds_only', 'additions only, two successive interrupted syncs (killed at %s, then at %s): after losing %s, fix (rc %d) does not restore the previously synced d1:a (markers of d2:b after kill 1 %s, after kill 2 %s)' % (
+                        k1, k2, dev, rf.rc, sorted(set(m1.values())), sorted(set(m2.values()))), rep, finding_key=KEY_SECOND if shape else None)
+                finally:
+                    drop(b)
+        finally:
+            drop(a)
+
+
 class SyncKill:
     """one configuration: scenario, np, io_cache, number of content copies, autosave position"""
 
@@ -1129,6 +1282,18 @@ def main(tier, replay=None):
             istats[k] = istats.get(k, 0) + v
         istats['configurations'] = istats.get('configurations', 0) + 1
     lap('content_in_disks')
+    # ---- additions only, two successive interrupted syncs (the second one loads with clear_past_hash)
+    tstats = {}
+    for (np_, cache_) in ([(1, 3), (2, 3)] if quick else [(1, 3), (2, 3), (1, 1), (2, 8)]):
+        try:
+            TK = TwoKills(chk, binary, shim, np_, cache_)
+        except Exception as e:
+            chk.violation('setup', 'two-kills history cannot be prepared: %s' % e, {'np': np_}, no_input=True)
+            continue
+        pmap(TK.case, TK.points(quick))
+        for k, v in TK.stats.items():
+            tstats[k] = tstats.get(k, 0) + v
+    lap('two_kills')
     # ---- delete / interrupted sync / identical re-add
     rstats = {}
     for (nd_, np_, cache_) in ([(2, 1, 3)] if quick else [(2, 1, 3), (3, 2, 1), (2, 2, 8)]):
@@ -1202,10 +1367,10 @@ def main(tier, replay=None):
     lap('fix_leftovers')
     probe = unrecoverable_rerun_probe(binary, shim)
     lap('probe')
-    n_eval = tot.get('kills', 0) + sstats['signals'] + fstats.get('kills', 0) + rstats.get('histories', 0) + rstats.get('resave_histories', 0) + istats.get('kills', 0) + lstats.get('partial_runs', 0) + lstats.get('signals', 0)
+    n_eval = tot.get('kills', 0) + sstats['signals'] + fstats.get('kills', 0) + rstats.get('histories', 0) + rstats.get('resave_histories', 0) + istats.get('kills', 0) + tstats.get('histories', 0) + lstats.get('partial_runs', 0) + lstats.get('signals', 0)
     chk.cov.update({'evaluations': n_eval, 'distinct_nontrivial': n_eval,
                     'rule': 'EVERY numbered state-changing call k of a reference sync (and of a reference fix) x {before, after, short for write/pwrite}: one fresh deterministic array per point, killed there; SIGINT/SIGTERM at every parity write of slowed syncs; non-trivial = runs really interrupted',
-                    'sync_kill_configurations': conf_sum, 'sync_kill': tot, 'graceful_stop': sstats, 'fix_kill_configurations': fconf, 'fix_kill': fstats, 'delete_kill_identical_readd': rstats, 'content_copies_inside_data_disks': istats, 'second_fix_over_unrecoverable_leftovers': lstats,
+                    'sync_kill_configurations': conf_sum, 'sync_kill': tot, 'graceful_stop': sstats, 'fix_kill_configurations': fconf, 'fix_kill': fstats, 'delete_kill_identical_readd': rstats, 'content_copies_inside_data_disks': istats, 'two_successive_interrupted_syncs_adds_only': tstats, 'second_fix_over_unrecoverable_leftovers': lstats,
                     'torn_write_np1_unrecoverable': tot.get('torn_write_np1_unrecoverable', 0), 'reduced_hash_np1_unrecoverable': tot.get('reduced_hash_np1_unrecoverable', 0), 'autosave_race': aw,
                     'fix_rerun_after_unrecoverable_result (measured, not judged)': probe,
                     'traces_validated_against_impl': traces_ok, 'phase_seconds': phase})
